@@ -3,7 +3,7 @@ part of C01)."""
 from vlib.pyvc.dsl import *
 
 
-@spec(uninterpreted=True)
+@spec(uninterpreted=True, native="importlib.import_module('penman._format')._format_node(node, indent, column, variables)")
 def fmt_node(node: 'val', indent: 'val', column: 'val', variables: 'set') -> 'str':
     """names the text _format_node produces for a nested node (deterministic)"""
 
